@@ -45,6 +45,8 @@ pub trait TypeOps {
     fn encode_gen(&self, rng: &mut Rng, fuel: i64, n: usize) -> Result<(Vec<u8>, Vec<RValue>), String>;
     /// append one generated value of this type to a builder (heterogeneous messages)
     fn arg_into(&self, b: &mut IDLBuilder, rng: &mut Rng, fuel: i64) -> Result<RValue, String>;
+    /// IDLValue::try_from_candid_type on a generated value: (abstract value of the native value, result)
+    fn to_idl_value(&self, rng: &mut Rng, fuel: i64) -> (RValue, Result<candid::IDLValue, String>);
     /// decode one argument at this type (surplus arguments are skipped by `done`)
     fn decode(&self, bytes: &[u8], cfg: &DecoderConfig) -> DecOut;
 }
@@ -151,11 +153,22 @@ impl<T: Corpus> TypeOps for Ops<T> {
             Ok(Ok(())) => Ok(m),
         }
     }
+    fn to_idl_value(&self, rng: &mut Rng, fuel: i64) -> (RValue, Result<candid::IDLValue, String>) {
+        let mut fuel = fuel;
+        let v = T::gen(rng, &mut fuel);
+        let m = v.model();
+        let r = match catch(|| candid::IDLValue::try_from_candid_type(&v)) {
+            Err(p) => Err(format!("panic|{}", p.sig())),
+            Ok(Err(e)) => Err(format!("error|{e:?}")),
+            Ok(Ok(x)) => Ok(x),
+        };
+        (m, r)
+    }
     fn decode(&self, bytes: &[u8], cfg: &DecoderConfig) -> DecOut {
         let r = catch(|| -> Result<(T, DecoderConfig), String> {
-            let mut de = IDLDeserialize::new_with_config(bytes, cfg).map_err(|e| e.to_string())?;
-            let w: T = de.get_value().map_err(|e| e.to_string())?;
-            de.done().map_err(|e| e.to_string())?;
+            let mut de = IDLDeserialize::new_with_config(bytes, cfg).map_err(|e| format!("{e:?}"))?;
+            let w: T = de.get_value().map_err(|e| format!("{e:?}"))?;
+            de.done().map_err(|e| format!("{e:?}"))?;
             Ok((w, de.get_config().compute_cost(cfg)))
         });
         match r {
